@@ -32,6 +32,8 @@ TEMPLATES_QUICK = [
     E_ACUTE + [None], [None] + E_ACUTE, [None] + NBSP, [ord('a')] + [0xC2, 0x85],
     list(b'---') + [None], [None] + list(b'---'),
 ]
+# 'L' = a symbolic byte that may also be LF (git trees can hold such names)
+TEMPLATES_LF = [['L', None], [None, 'L', None]]
 TEMPLATES_THOROUGH = TEMPLATES_QUICK + [
     list(b'--') + [None, None], [34, None, 34],
     [None] * 4, HAN + [None, None], [32, 32, None, None], [None, None] + NBSP, [None, 0xE2, 0x80, 0x83],
@@ -40,9 +42,9 @@ TEMPLATES_THOROUGH = TEMPLATES_QUICK + [
 
 BOUNDS = {
     'quick': 'R1/R2: 1 file x 1 entry x {0,1,2} ranges, 1 file x 2 entries x 1 range, or 2 files x 1 entry x 1 range; path = one of %d templates with <=3 fully symbolic bytes (0x01-0x7f minus LF) plus concrete multi-byte scalars; hash = 2 symbolic printable non-space bytes; line numbers symbolic u32 <= 99 (one shape near u32::MAX); base sha 4 symbolic hex; R3: every text of <= 5 bytes over {\" SP - , 0 9 a LF CR TAB} and the same text followed by LF---LF{}; R4: remap of a 4-hex symbolic base with a symbolic hex target of length 0, 2, 4 or 8' % len(TEMPLATES_QUICK),
-    'thorough': 'as quick with %d path templates (<=4 symbolic bytes), <=3 ranges per entry, 2 files x 2 entries, three digit-length classes per number; R3 texts <= 6 bytes' % len(TEMPLATES_THOROUGH),
+    'thorough': 'as quick with %d path templates (<=4 symbolic bytes), <=3 ranges per entry, 2 files x 2 entries, three digit-length classes per number; R3 texts <= 5 bytes as in quick (6 bytes was tried: more than 10 core-hours)' % len(TEMPLATES_THOROUGH),
 }
-OUTSIDE = 'paths containing LF or NUL; hashes containing whitespace (the standard requires hex); prompt records are opaque to the codec model (serde_json is trusted for the JSON half); logs with more than 2 files / 3 ranges; line numbers with 3-9 digits'
+OUTSIDE = 'paths containing NUL; hashes containing whitespace other than a space; prompt records are opaque to the codec model (serde_json is trusted for the JSON half); logs with more than 2 files / 3 ranges; line numbers with 3-9 digits'
 ASSUMPTIONS = [
     'serde_json modelled as an injective codec: from_str(to_string_pretty(x)) == x, pretty output has no raw CR and only its own LFs, any other text is rejected',
     'symbolic bytes are ASCII; multi-byte characters occur as concrete bytes of the template',
@@ -67,7 +69,13 @@ def plan(tier, seed):
     if tier != 'quick':
         tasks.append(('roundtrip', {'files': [{'t': 1, 'entries': [1, 2]}, {'t': 2, 'entries': [2, 1]}], 'big': False}))
         tasks.append(('roundtrip', {'files': [{'t': 0, 'entries': [3]}], 'big': True}))
-    n3 = 5 if tier == 'quick' else 6
+    # what the line-based format cannot carry (recorded findings): a path with a line feed, a hash with a space
+    for k in range(len(TEMPLATES_LF)):
+        tasks.append(('roundtrip', {'files': [{'t': len(TEMPLATES_THOROUGH) + k, 'entries': [1]}], 'big': False}))
+    tasks.append(('roundtrip', {'files': [{'t': 0, 'entries': [1]}], 'big': False, 'any_hash': True}))
+    # every text of <= 5 bytes in both tiers: 6 bytes (10^6 texts, > 10 core-hours, one first-byte class alone > 2 h) was
+    # tried and is outside the budget of the thorough tier
+    n3 = 5
     for n in range(0, n3 + 1):
         # long texts are split by their first byte so that the pool can share them
         firsts = [None] if n < 6 else list(R3_ALPHABET)
@@ -94,19 +102,22 @@ def build_log(h, shape):
     M = P.M
     files = []
     desc_files = []
-    T = TEMPLATES_THOROUGH
+    T = TEMPLATES_THOROUGH + TEMPLATES_LF
     for fi, fs in enumerate(shape['files']):
         tpl = T[fs['t']]
         pb = []
         for k, x in enumerate(tpl):
             if x is None:
                 pb.append(h.byte('p%d_%d' % (fi, k), lo=1, hi=127, exclude=(10,)))
+            elif x == 'L':
+                # any byte a git tree entry can hold except NUL and `/`-structure: also LF
+                pb.append(h.byte('p%d_%d' % (fi, k), lo=1, hi=127))
             else:
                 pb.append(x)
         entries = []
         desc_entries = []
         for ei, nr in enumerate(fs['entries']):
-            hb = [h.byte('h%d_%d_%d' % (fi, ei, k), lo=0x21, hi=0x7e) for k in range(2)]
+            hb = [h.byte('h%d_%d_%d' % (fi, ei, k), lo=0x20 if shape.get('any_hash') else 0x21, hi=0x7e) for k in range(2)]
             ranges = []
             desc_ranges = []
             for ri in range(nr):
@@ -135,13 +146,26 @@ def build_log(h, shape):
                      prompts=MapV('btree', [], 'map'))
     log = mk_struct(M, LOG, attestations=VecV(files), metadata=meta)
     h.inputs_struct = {'files': desc_files, 'base_sha': ByteStr(sha)}
+    # recorded findings (the line-based format cannot carry them), as predicates over the symbolic input
+    lf = []
+    sp = []
+    for fa in files:
+        lf += [byte_eq(b, 10) for b in field(M, fa, FILE, 'file_path').buf.b]
+        for e in field(M, fa, FILE, 'entries').e:
+            sp += [byte_eq(b, 32) for b in field(M, e, ENTRY, 'hash').buf.b]
+    h.c17_known = [('path-contains-line-feed', any_of(lf) if lf else False), ('hash-contains-space', any_of(sp) if sp else False)]
     return log
 
 
 def path_classes(h, log):
-    """known-finding classes as predicates over the symbolic input (none on paths any more:
-    the four path defects found here were repaired in /repo by fix: commits)"""
-    return []
+    """known-finding classes as predicates over the symbolic input (the four path defects and the empty entry found
+    here earlier were repaired in /repo by fix: commits; what remains is what the line-based format cannot carry)"""
+    out = []
+    for kid, cond in getattr(h, 'c17_known', []):
+        if cond is False:
+            continue
+        out.append((kid, z3.BoolVal(True) if cond is True else cond))
+    return out
 
 
 def reference_serialize(h, log, quoted):
